@@ -38,6 +38,8 @@ struct Th {
     mv_idle_cell* cell; uint64_t deadline; int join_target; void* obj; bool signaled;
     pthread_t pth; void* (*start)(void*); void* arg; void* ret; volatile bool done; bool yielding;
     char name[24]; void* stack; uint32_t ops; uint32_t consec; uint32_t alone; void* switching_from; uint64_t switch_mark_age;
+    // TSO mode: a one-entry store buffer (an under-approximation of x86-TSO: every behaviour it produces is TSO-valid)
+    struct { uintptr_t addr; uint64_t val; uint8_t size; bool on; uint32_t age; } sb;
 };
 
 Th TH[MAXT]; int NT = 0;
@@ -46,6 +48,7 @@ uint64_t vnow = MV_T0;
 uint64_t npoints = 0;
 int forced_spins = 0;
 bool time_dev = false;
+bool tso_mode = false;
 uint64_t deadlines[32]; int ndeadlines = 0;
 struct Mtx { void* addr; int owner; int depth; } MT[MAXMTX]; int NM = 0;
 struct Poison { uintptr_t lo, hi; } PZ[MAXPOISON]; volatile int NP = 0;
@@ -53,6 +56,17 @@ __thread Th* self = nullptr;
 
 void futex_wait(volatile uint32_t* a, uint32_t v) { syscall(SYS_futex, a, FUTEX_WAIT_PRIVATE, v, nullptr, nullptr, 0); }
 void futex_wake(volatile uint32_t* a) { syscall(SYS_futex, a, FUTEX_WAKE_PRIVATE, 1, nullptr, nullptr, 0); }
+
+void sb_drain(Th* t) {
+    if (!t->sb.on) return;
+    switch (t->sb.size) {
+        case 1: __atomic_store_n((volatile uint8_t*)t->sb.addr, (uint8_t)t->sb.val, __ATOMIC_SEQ_CST); break;
+        case 2: __atomic_store_n((volatile uint16_t*)t->sb.addr, (uint16_t)t->sb.val, __ATOMIC_SEQ_CST); break;
+        case 4: __atomic_store_n((volatile uint32_t*)t->sb.addr, (uint32_t)t->sb.val, __ATOMIC_SEQ_CST); break;
+        default: __atomic_store_n((volatile uint64_t*)t->sb.addr, (uint64_t)t->sb.val, __ATOMIC_SEQ_CST); break;
+    }
+    t->sb.on = false;
+}
 
 void set_now(uint64_t t) { if (t > vnow) vnow = t; if (&photon::now) photon::now = vnow; }
 
@@ -113,6 +127,7 @@ void give_baton(Th* t) { t->go = 1; futex_wake(&t->go); }
 void schedule(Th* me, const char* what, uintptr_t addr, bool exiting = false) {
     npoints++;
     if (me->switching_from && strcmp(what, "prepare_switch") != 0) me->switching_from = nullptr;     // its context switch has completed
+    if (me->sb.on && (me->wait != W_NONE || exiting || ++me->sb.age > 40)) sb_drain(me);             // store buffers drain eventually
     for (;;) {
         Th* list[MAXT]; int n = 0;
         bool me_enabled = !exiting && is_enabled(me);
@@ -236,7 +251,7 @@ extern "C" {
 void (*mv_on_deadlock)(const char*) = default_deadlock;
 
 void mv_init(void) {
-    NT = 0; NM = 0; NP = 0; vnow = MV_T0; npoints = 0; forced_spins = 0; time_dev = false; ndeadlines = 0;
+    NT = 0; NM = 0; NP = 0; vnow = MV_T0; npoints = 0; forced_spins = 0; time_dev = false; ndeadlines = 0; tso_mode = false;
     mv_on_deadlock = default_deadlock;
     if (&photon::now) photon::now = vnow;
     self = reg_thread("main");
@@ -264,6 +279,7 @@ void mv_yield(const char* label) { if (!ON()) return; Th* me = self; me->wait = 
 uint64_t mv_now(void) { return vnow; }
 void mv_register_deadline(uint64_t abs_us) { if (ndeadlines < 32) deadlines[ndeadlines++] = abs_us; }
 void mv_time_deviations(int on) { time_dev = on; }
+void mv_tso(int on) { tso_mode = on; }
 int mv_self(void) { return self ? self->id : -1; }
 int mv_nthreads(void) { return NT; }
 void mv_set_name(const char* name) { if (self) snprintf(self->name, sizeof self->name, "%s", name); }
@@ -295,24 +311,31 @@ void mv_idle_cancel(mv_idle_cell* cell) {
         if (!ON()) return __atomic_load_n(a, __ATOMIC_SEQ_CST);                                                       \
         Th* me = self; uintptr_t pc = PC(); if (NP) check_poison((uintptr_t)a, sizeof(T), pc, "atomic load");         \
         point(me, "load", pc, (uintptr_t)a, sizeof(T), true);                                                         \
+        if (me->sb.on && me->sb.addr <= (uintptr_t)a + sizeof(T) - 1 && (uintptr_t)a <= me->sb.addr + me->sb.size - 1) { \
+            if (me->sb.addr == (uintptr_t)a && me->sb.size == sizeof(T)) { T fv = (T)me->sb.val; after(me, pc, (uintptr_t)a, sizeof(T), (uint64_t)fv, true); return fv; } \
+            sb_drain(me); }                                                                                           \
         T v = __atomic_load_n(a, __ATOMIC_SEQ_CST); after(me, pc, (uintptr_t)a, sizeof(T), (uint64_t)v, true); return v; }                \
-    void __tsan_atomic##N##_store(volatile T* a, T v, int) {                                                          \
+    void __tsan_atomic##N##_store(volatile T* a, T v, int mo) {                                                       \
         if (!ON()) { __atomic_store_n(a, v, __ATOMIC_SEQ_CST); return; }                                              \
         Th* me = self; uintptr_t pc = PC(); if (NP) check_poison((uintptr_t)a, sizeof(T), pc, "atomic store");        \
         point(me, "store", pc, (uintptr_t)a, sizeof(T), false);                                                       \
+        sb_drain(me);                                                                                                 \
+        if (tso_mode && mo != __ATOMIC_SEQ_CST && pmc_choose(2, PMC_ENV, 1, "TSO: the store stays in the store buffer")) { \
+            me->sb.addr = (uintptr_t)a; me->sb.val = (uint64_t)v; me->sb.size = sizeof(T); me->sb.on = true; me->sb.age = 0; \
+            after(me, pc, (uintptr_t)a, sizeof(T), 0, false); return; }                                               \
         __atomic_store_n(a, v, __ATOMIC_SEQ_CST); after(me, pc, (uintptr_t)a, sizeof(T), 0, false); }                 \
     T __tsan_atomic##N##_exchange(volatile T* a, T v, int) {                                                          \
         if (!ON()) return __atomic_exchange_n(a, v, __ATOMIC_SEQ_CST);                                                \
         Th* me = self; uintptr_t pc = PC(); if (NP) check_poison((uintptr_t)a, sizeof(T), pc, "atomic exchange");     \
         bool nm = (*(volatile T*)a == v);                                                                             \
-        point(me, "xchg", pc, (uintptr_t)a, sizeof(T), nm);                                                           \
+        point(me, "xchg", pc, (uintptr_t)a, sizeof(T), nm); sb_drain(me);                                                           \
         nm = (*(volatile T*)a == v);                                                                                  \
         T o = __atomic_exchange_n(a, v, __ATOMIC_SEQ_CST); after(me, pc, (uintptr_t)a, sizeof(T), (uint64_t)o, nm); return o; }           \
     int __tsan_atomic##N##_compare_exchange_strong(volatile T* a, T* e, T d, int, int) {                              \
         if (!ON()) return __atomic_compare_exchange_n(a, e, d, 0, __ATOMIC_SEQ_CST, __ATOMIC_SEQ_CST);                \
         Th* me = self; uintptr_t pc = PC(); if (NP) check_poison((uintptr_t)a, sizeof(T), pc, "atomic cas");          \
         bool nm = (*(volatile T*)a != *e);                                                                            \
-        point(me, "cas", pc, (uintptr_t)a, sizeof(T), nm);                                                            \
+        point(me, "cas", pc, (uintptr_t)a, sizeof(T), nm); sb_drain(me);                                                            \
         T cur = *(volatile T*)a; nm = (cur != *e);                                                                    \
         int r = __atomic_compare_exchange_n(a, e, d, 0, __ATOMIC_SEQ_CST, __ATOMIC_SEQ_CST);                          \
         after(me, pc, (uintptr_t)a, sizeof(T), (uint64_t)cur, nm); return r; }                                        \
@@ -320,7 +343,7 @@ void mv_idle_cancel(mv_idle_cell* cell) {
         if (!ON()) return __atomic_compare_exchange_n(a, e, d, 0, __ATOMIC_SEQ_CST, __ATOMIC_SEQ_CST);                \
         Th* me = self; uintptr_t pc = PC(); if (NP) check_poison((uintptr_t)a, sizeof(T), pc, "atomic cas");          \
         bool nm = (*(volatile T*)a != *e);                                                                            \
-        point(me, "casw", pc, (uintptr_t)a, sizeof(T), nm);                                                           \
+        point(me, "casw", pc, (uintptr_t)a, sizeof(T), nm); sb_drain(me);                                                           \
         T cur = *(volatile T*)a; nm = (cur != *e);                                                                    \
         int r = __atomic_compare_exchange_n(a, e, d, 0, __ATOMIC_SEQ_CST, __ATOMIC_SEQ_CST);                          \
         after(me, pc, (uintptr_t)a, sizeof(T), (uint64_t)cur, nm); return r; }                                        \
@@ -328,7 +351,7 @@ void mv_idle_cancel(mv_idle_cell* cell) {
         if (!ON()) { __atomic_compare_exchange_n(a, &e, d, 0, __ATOMIC_SEQ_CST, __ATOMIC_SEQ_CST); return e; }        \
         Th* me = self; uintptr_t pc = PC();                                                                           \
         bool nm = (*(volatile T*)a != e);                                                                             \
-        point(me, "casv", pc, (uintptr_t)a, sizeof(T), nm);                                                           \
+        point(me, "casv", pc, (uintptr_t)a, sizeof(T), nm); sb_drain(me);                                                           \
         T cur = *(volatile T*)a; nm = (cur != e);                                                                     \
         __atomic_compare_exchange_n(a, &e, d, 0, __ATOMIC_SEQ_CST, __ATOMIC_SEQ_CST);                                 \
         after(me, pc, (uintptr_t)a, sizeof(T), (uint64_t)cur, nm); return e; }
@@ -338,7 +361,7 @@ void mv_idle_cancel(mv_idle_cell* cell) {
         if (!ON()) return BUILTIN(a, v, __ATOMIC_SEQ_CST);                                                            \
         Th* me = self; uintptr_t pc = PC(); if (NP) check_poison((uintptr_t)a, sizeof(T), pc, "atomic rmw");          \
         bool nm; { T cur = *(volatile T*)a; (void)cur; nm = (NOCHANGE); }                                             \
-        point(me, "fetch_" #NAME, pc, (uintptr_t)a, sizeof(T), nm);                                                   \
+        point(me, "fetch_" #NAME, pc, (uintptr_t)a, sizeof(T), nm); sb_drain(me);                                                   \
         { T cur = *(volatile T*)a; (void)cur; nm = (NOCHANGE); }                                                      \
         T o = BUILTIN(a, v, __ATOMIC_SEQ_CST); after(me, pc, (uintptr_t)a, sizeof(T), (uint64_t)o, nm); return o; }
 
@@ -356,7 +379,7 @@ DEF_ALL(16, uint16_t)
 DEF_ALL(32, uint32_t)
 DEF_ALL(64, uint64_t)
 
-void __tsan_atomic_thread_fence(int) { if (!ON()) return; Th* me = self; me->wait = W_NONE; schedule(me, "fence", 0); }
+void __tsan_atomic_thread_fence(int) { if (!ON()) return; Th* me = self; me->wait = W_NONE; schedule(me, "fence", 0); sb_drain(me); }
 void __tsan_atomic_signal_fence(int) {}
 void __tsan_init(void) {}
 
@@ -371,22 +394,25 @@ void __tsan_init(void) {}
     void __tsan_volatile_write##N(void* a) {                                                                           \
         if (!ON() || a == (void*)&photon::now) return;                                                                 \
         Th* me = self; uintptr_t pc = PC(); if (NP) check_poison((uintptr_t)a, N, pc, "volatile write");               \
-        point(me, "vwrite", pc, (uintptr_t)a, N > 8 ? 8 : N, false); after(me, pc, (uintptr_t)a, 8, 0, false); }       \
+        point(me, "vwrite", pc, (uintptr_t)a, N > 8 ? 8 : N, false); sb_drain(me); after(me, pc, (uintptr_t)a, 8, 0, false); }       \
     void __tsan_unaligned_volatile_read##N(void* a) { __tsan_volatile_read##N(a); }                                    \
     void __tsan_unaligned_volatile_write##N(void* a) { __tsan_volatile_write##N(a); }
 DEF_VOL(1) DEF_VOL(2) DEF_VOL(4) DEF_VOL(8) DEF_VOL(16)
 
 // ------------------------------------------------------------------ TSan ABI: plain accesses feed the poison map only
+static void sb_commit_point(Th* me) { me->wait = W_NONE; schedule(me, "store-buffer commit", me->sb.addr); sb_drain(me); }
+#define SB_W() do { if (tso_mode && active && self && self->sb.on) sb_commit_point(self); } while (0)
+#define SB_R(a, n) do { if (tso_mode && active && self && self->sb.on && self->sb.addr <= (uintptr_t)(a) + (n) - 1 && (uintptr_t)(a) <= self->sb.addr + self->sb.size - 1) sb_commit_point(self); } while (0)
 #define DEF_PLAIN(N)                                                                                                   \
-    void __tsan_read##N(void* a) { if (NP && active) check_poison((uintptr_t)a, N, PC(), "read"); }                    \
-    void __tsan_write##N(void* a) { if (NP && active) check_poison((uintptr_t)a, N, PC(), "write"); }                  \
+    void __tsan_read##N(void* a) { SB_R(a, N); if (NP && active) check_poison((uintptr_t)a, N, PC(), "read"); }        \
+    void __tsan_write##N(void* a) { SB_W(); if (NP && active) check_poison((uintptr_t)a, N, PC(), "write"); }          \
     void __tsan_unaligned_read##N(void* a) { if (NP && active) check_poison((uintptr_t)a, N, PC(), "read"); }          \
-    void __tsan_unaligned_write##N(void* a) { if (NP && active) check_poison((uintptr_t)a, N, PC(), "write"); }        \
-    void __tsan_read_write##N(void* a) { if (NP && active) check_poison((uintptr_t)a, N, PC(), "read-write"); }        \
+    void __tsan_unaligned_write##N(void* a) { SB_W(); if (NP && active) check_poison((uintptr_t)a, N, PC(), "write"); } \
+    void __tsan_read_write##N(void* a) { SB_W(); if (NP && active) check_poison((uintptr_t)a, N, PC(), "read-write"); } \
     void __tsan_unaligned_read_write##N(void* a) { if (NP && active) check_poison((uintptr_t)a, N, PC(), "read-write"); }
 DEF_PLAIN(1) DEF_PLAIN(2) DEF_PLAIN(4) DEF_PLAIN(8) DEF_PLAIN(16)
 void __tsan_read_range(void* a, unsigned long n) { if (NP && active) check_poison((uintptr_t)a, n > INT_MAX ? INT_MAX : (int)n, PC(), "read"); }
-void __tsan_write_range(void* a, unsigned long n) { if (NP && active) check_poison((uintptr_t)a, n > INT_MAX ? INT_MAX : (int)n, PC(), "write"); }
+void __tsan_write_range(void* a, unsigned long n) { SB_W(); if (NP && active) check_poison((uintptr_t)a, n > INT_MAX ? INT_MAX : (int)n, PC(), "write"); }
 void __tsan_vptr_update(void**, void*) {}
 void __tsan_vptr_read(void**) {}
 void __tsan_func_entry(void*) {}
